@@ -34,9 +34,29 @@ UNITS = [
          ensures=[("def", "r == (FilterAtom::Test { expr: Box::new(expr), not })")]),
     Unit(name="FilterAtom::cmp", file=M, impl="impl FilterAtom", fn="cmp", order=80, serves=["C05", "C04"],
          ensures=[("def", "r == FilterAtom::Comparison(cmp)")]),
-    # TestFunction::try_new (arity / argument typing of the five standard functions) stays outside the store: Verus rejects its
-    # slice patterns (`("length", [a]) => ..`); turning them into length tests and indexing would be a rewrite of the function,
-    # not an extraction rule.  The typing tables it relies on (is_lit, is_filter, is_comparable, is_res_bool) are proved below.
+    # TestFunction::try_new: the function name / arity table (src/parser/model.rs).  Rule E11 (slice patterns): the scrutinee
+    # `args.as_slice()` becomes `vf_slice_view(&args)` (a proved helper: a slice of length 0 / 1 / 2 / more, with references to the
+    # elements) and the patterns `[a]`, `[a, b]` become `SV::S1(a)`, `SV::S2(a, b)`; the nested fn gets its contract in place.
+    Unit(name="TestFunction::try_new", file=M, impl="impl TestFunction", fn="try_new", order=80, serves=["C10", "C14"],
+         text_rewrites=[("E11", "match (name, args.as_slice()) {", "match (name, vf_slice_view(&args)) {", 1),
+                        ("E11", "[@1, @2]) =>", "SV::S2(@1, @2)) =>", 2),
+                        ("E11", "[@1]) =>", "SV::S1(@1)) =>", 3),
+                        ("E2n", ") -> Result<&'a FnArg, JsonPathError> {",
+                         ") -> (__o: Result<&'a FnArg, JsonPathError>) ensures (*a is Literal || *a is Filter) ==> __o is Err, "
+                         "!(*a is Literal || *a is Filter) ==> __o == Ok::<&FnArg, JsonPathError>(a), {", 1)],
+         ensures=[
+             ("length", "name == \"length\" && args@.len() == 1 ==> r == Ok::<TestFunction, JsonPathError>(TestFunction::Length(Box::new(args@[0])))"),
+             ("value", "name == \"value\" && args@.len() == 1 ==> r == Ok::<TestFunction, JsonPathError>(TestFunction::Value(args@[0]))"),
+             ("count", "name == \"count\" && args@.len() == 1 ==> (if args@[0] is Literal || args@[0] is Filter { r is Err } "
+                       "else { r == Ok::<TestFunction, JsonPathError>(TestFunction::Count(args@[0])) })"),
+             ("search", "name == \"search\" && args@.len() == 2 ==> r == Ok::<TestFunction, JsonPathError>(TestFunction::Search(args@[0], args@[1]))"),
+             ("match", "name == \"match\" && args@.len() == 2 ==> r == Ok::<TestFunction, JsonPathError>(TestFunction::Match(args@[0], args@[1]))"),
+             ("arity", "((name == \"length\" || name == \"value\" || name == \"count\") && args@.len() != 1) "
+                       "|| ((name == \"search\" || name == \"match\") && args@.len() != 2) ==> r is Err"),
+             # every other name is a call of the data type's extension hook, with the arguments as written (C14)
+             ("custom", "name != \"length\" && name != \"value\" && name != \"count\" && name != \"search\" && name != \"match\" "
+                        "==> (r matches Ok(TestFunction::Custom(n, a)) && n@ == name@ && a == args)"),
+         ]),
     Unit(name="FnArg::is_lit", file=M, impl="impl FnArg", fn="is_lit", order=80, serves=["C10"],
          ret_name="b", ensures=[("def", "b == (*self is Literal)")]),
     Unit(name="FnArg::is_filter", file=M, impl="impl FnArg", fn="is_filter", order=80, serves=["C10"],
